@@ -62,7 +62,7 @@ def plan(tier):
     return {
         "level": "exploration",
         "shards": 16,
-        "budget_s": 40 if q else 800,
+        "budget_s": 40 if q else 700,
         "timeout_s": 600 if q else 3000,
         "min_nontrivial": 300 if q else 6000,
         "required_counters": ["chunk_exact", "trunc_judged", "corrupt_judged", "write_interop", "e2e_exact",
@@ -864,7 +864,7 @@ def run_shard(sh: Shard) -> None:
     E = E2E(sh)
     E.start()
     # the soft budget is counted from here: importing StreamFlow + building the context alone takes
-    # 3 s on an idle machine and up to 50 s on a loaded one
+    # 3 s on an idle machine and minutes on a saturated one
     sh.deadline = time.time() + sh.plan["budget_s"]
     idx = sh.shard
     n = 0
